@@ -123,6 +123,7 @@ func genYOpts(t *rapid.T, label string) m.YOpts {
 		Comments:  rapid.Bool().Draw(t, label+"Comments"),
 		SeqIndent: rapid.Bool().Draw(t, label+"SeqIndent"),
 		Header:    rapid.Bool().Draw(t, label+"Header"),
+		Literal:   rapid.Bool().Draw(t, label+"Literal"),
 	}
 }
 
@@ -131,7 +132,7 @@ func genC15(t *rapid.T) c15Case {
 	p := &m.Profile{Name: pick(t, []string{"c15", "profile", "validations", "My Profile"}, "pname")}
 	nv := rapid.IntRange(1, 4).Draw(t, "nv")
 	names := rapid.Permutation(c15Names).Draw(t, "names")[:nv]
-	msgs := []string{"", "failed", "message", "targetClass", "value {{ex.p0}} and {{ ex.p1 }}", "violation: {{ex.p0}}", "propertyConstraints"}
+	msgs := []string{"", "failed", "message", "targetClass", "value {{ex.p0}} and {{ ex.p1 }}", "violation: {{ex.p0}}", "propertyConstraints", "two lines\nsecond: {{ex.p0}} # not a comment", "- looks like: a list", "ends with a line break\n", "one two three four five {{ex.p0}} six\n"}
 	for i := 0; i < nv; i++ {
 		g.budget = 7
 		class := "ex.Test"
